@@ -1121,4 +1121,5 @@ def replay(run):
 
 
 if __name__ == '__main__':
-    main()
+    from common import run_guarded
+    run_guarded('C04', main)
